@@ -131,7 +131,12 @@ def node_ids(mod, t, v, syn, out, depth=0):
         if specs:
             root, ext = C.general_set(specs, C.IntSet([(0, None)]))
             vc = "in" if root.contains(len(v)) else "out"
-        out.add("%s/%s/%s@%s" % (k, cc, vc, syn))
+        ofof = ""
+        if rt.elem.kind in ("SEQUENCE OF", "SET OF"):
+            leaf = rt.elem.elem
+            if leaf.kind != "REF" and (leaf.size_c or leaf.value_c or leaf.alpha_c):
+                ofof = "+ofofc"     # X OF Y OF <constrained leaf>: asn1c's parser attaches the constraint to the middle level
+        out.add("%s/%s/%s%s%s@%s" % (k, cc, vc, "+multi" if len(v) > 1 else "", ofof, syn))
         for e in v:
             node_ids(mod, rt.elem, e, syn, out, depth + 1)
     else:
